@@ -5,7 +5,7 @@ from .. import smt
 from ..values import UNDEF, EnumV, RefV, VecV, veq
 from ..scenario import OrderView, make_engine, Inputs, sym_value, const_order_id
 from ..exec import State
-from ..histcheck import panic_obligations, reach_witness, busy_witness, sequences, run_hist
+from ..histcheck import match_unwind_for, panic_obligations, reach_witness, busy_witness, sequences, run_hist
 from ..framework import Run, parallel_map, cube_stats, VERIF
 
 W = 70
@@ -130,7 +130,7 @@ def cubes(tier):
     for s in sequences(depth, nadds):
         if 'M' not in s:
             continue
-        mu = 5 if s.count('M') <= 1 else 3
+        mu = match_unwind_for(s, 5)
         out.append({'seq': s, 'match_unwind': mu, 'pop_unwind': depth + 3, 'qty_mode': 'full', 'price': price,
                     'family': 'history'})
     return out
